@@ -143,7 +143,14 @@ class Recorder:
             iter_ok = int(c['X'].shape == c['p'].shape and np.array_equal(c['X'], c['p']))
         if ok:
             c['avg'] = np.mean([c['upper'], out], axis=0)[:, None]
-        c['ev'].append({'e': 'Env', 'k': c['k'], 'ok': int(ok), 'iter_ok': iter_ok, 'cfg_ok': c['cfg_ok']})
+        few = 1
+        if not ok:
+            # "too few extrema to define envelopes": fewer than two strict maxima or fewer than two strict minima
+            v = np.asarray(c['p'], float).ravel()
+            nmax = int(np.sum((v[1:-1] > v[:-2]) & (v[1:-1] > v[2:]))) if v.size >= 3 else 0
+            nmin = int(np.sum((v[1:-1] < v[:-2]) & (v[1:-1] < v[2:]))) if v.size >= 3 else 0
+            few = int(nmax < 2 or nmin < 2)
+        c['ev'].append({'e': 'Env', 'k': c['k'], 'ok': int(ok), 'iter_ok': iter_ok, 'cfg_ok': c['cfg_ok'], 'few': few})
         return out
 
     def _as_configured(self, c, X, mode, out):
